@@ -18,7 +18,7 @@ def _norm(s):
 
 
 def project(text, glyph_names):
-    """-> list of top-level statements: {"kind", "tag", "t", "body": [{"k", "t"}]}"""
+    """-> list of top-level statements: {"kind", "tag", "t", "body": [{"k", "t"[, "c"]}]}"""
     doc = parse(text or "", glyph_names)
     out = []
     for st in doc.statements:
@@ -42,6 +42,13 @@ def project(text, glyph_names):
                 else:
                     body.append({"k": "rule", "t": _norm(s.asFea())})
             out.append({"kind": "feature", "tag": st.name, "t": "", "body": body})
+        elif isinstance(st, ast.TableBlock):
+            body = []
+            for s in st.statements:
+                if isinstance(s, ast.Comment):
+                    continue
+                body.append({"k": "rule", "t": _norm(s.asFea()), "c": type(s).__name__})
+            out.append({"kind": "table", "tag": st.name, "t": "", "body": body})
         else:
             kind = type(st).__name__
             out.append({"kind": kind, "tag": getattr(st, "name", "") if isinstance(getattr(st, "name", ""), str) else "",
